@@ -193,8 +193,14 @@ def pixel_region_spec(rng, cls=None, size=None, center=None, include=None, angle
         xs, ys = polygon_vertices(rng, L, cx, cy, poly_kind)
         if L >= 8 and abs(cx) < 1e6 and rng.random() < 0.15:
             # integer-dtype vertices
-            return S.reg(cls, meta=meta, vertices=S.pix({'a': [int(round(x)) for x in xs], 'dt': 'int64', 'sh': [len(xs)]},
-                                                        {'a': [int(round(y)) for y in ys], 'dt': 'int64', 'sh': [len(ys)]}))
+            vx = {'a': [int(round(x)) for x in xs], 'dt': rng.choice(['int64', 'int64', 'int32']), 'sh': [len(xs)]}
+            vy = {'a': [int(round(y)) for y in ys], 'dt': 'int64', 'sh': [len(ys)]}
+            mix = rng.random()
+            if mix < 0.2:
+                vy = S.arr_spec(ys)            # the two coordinate arrays are typed independently: integer x, fractional y ...
+            elif mix < 0.4:
+                vx = S.arr_spec(xs)            # ... or the other way round
+            return S.reg(cls, meta=meta, vertices=S.pix(vx, vy))
         if rng.random() < 0.3:
             # vertices given relative to an origin (constructor option)
             ox, oy = cx + rng.uniform(-1, 1) * L, cy + rng.uniform(-1, 1) * L
@@ -237,6 +243,32 @@ def _half_size(spec):
     return float(max(vals)) if vals else 0.0
 
 
+def graze(rng, r1, r2):
+    """grazing operands: the second is moved by whole pixels until the integer boxes of the two share exactly one column or
+    row of pixels (sometimes none, sometimes two), level with each other on the other axis.  Returns the moved r2 (or r2)."""
+    if not ('center' in r1['p'] and 'center' in r2['p'] and r1['cls'] != 'CompoundPixelRegion' and r2['cls'] != 'CompoundPixelRegion'
+            and not isinstance(r1['p']['center']['x'], dict) and not isinstance(r2['p']['center']['x'], dict)):
+        return r2
+    import copy
+    try:
+        b1, b2 = S.build(r1).bounding_box, S.build(r2).bounding_box
+    except Exception:
+        return r2
+    if not (b1.shape[0] and b1.shape[1] and b2.shape[0] and b2.shape[1]):
+        return r2
+    n = rng.choice([1, 1, 1, 0, 2])
+    side = rng.choice([-1, 1])
+    c2 = r2['p']['center']
+    dx = (b1.ixmax - n - b2.ixmin) if side > 0 else (b1.ixmin + n - b2.ixmax)
+    dy = ((b1.iymin + b1.iymax) - (b2.iymin + b2.iymax)) // 2
+    if rng.random() < 0.5:
+        dy = (b1.iymax - n - b2.iymin) if side > 0 else (b1.iymin + n - b2.iymax)
+        dx = ((b1.ixmin + b1.ixmax) - (b2.ixmin + b2.ixmax)) // 2
+    r2 = copy.deepcopy(r2)
+    r2['p']['center'] = S.pix(c2['x'] + int(dx), c2['y'] + int(dy))
+    return r2
+
+
 def compound_spec(rng, depth, leaf, include=None):
     """Random expression tree over leaf() specs with and/or/xor."""
     if depth <= 0 or rng.random() < 0.25:
@@ -270,6 +302,8 @@ def compound_spec(rng, depth, leaf, include=None):
             r2['p']['center'] = S.pix(float(c1['x']) + rng.choice([-1, 1]) * d, float(c1['y']) + rng.choice([-1, 1]) * d)
         if rng.random() < 0.5:
             r1, r2 = r2, r1
+    elif 0.3 <= k < 0.4:
+        r2 = graze(rng, r1, r2)
     elif k < 0.2 and 'center' in r1['p'] and 'center' in r2['p']:
         # concentric operands, in either order (hole first or outline first), also crossed shapes
         import copy
@@ -372,7 +406,7 @@ def sky_region_spec(rng, cls=None, frame=None, lon=None, lat=None, size_deg=None
     ang = angle if angle is not None else angle_spec(rng)
     asp = logu(rng, 1.0, 20.0)
     w, h = (L, L / asp) if rng.random() < 0.5 else (L / asp, L)
-    c = S.sky(lon, lat, frame)
+    c = S.held(S.sky(lon, lat, frame), rng)
     if cls == 'CircleSkyRegion':
         return S.reg(cls, meta=meta, center=c, radius=sky_size(rng, L / 2))
     if cls in ('EllipseSkyRegion', 'RectangleSkyRegion'):
@@ -383,7 +417,7 @@ def sky_region_spec(rng, cls=None, frame=None, lon=None, lat=None, size_deg=None
         cl = max(math.cos(math.radians(lat)), 0.05)
         lons = [lon + 0.5 * L * rng.uniform(0.3, 1) * math.cos(t) / cl for t in angs]
         lats = [max(-89.0, min(89.0, lat + 0.5 * L * rng.uniform(0.3, 1) * math.sin(t))) for t in angs]
-        return S.reg(cls, meta=meta, vertices=S.sky(S.arr_spec(lons), S.arr_spec(lats), frame))
+        return S.reg(cls, meta=meta, vertices=S.held(S.sky(S.arr_spec(lons), S.arr_spec(lats), frame), rng))
     if cls == 'CircleAnnulusSkyRegion':
         f = rng.uniform(0.1, 0.9)
         return S.reg(cls, meta=meta, center=c, inner_radius=sky_size(rng, f * L / 2), outer_radius=sky_size(rng, L / 2))
@@ -459,6 +493,11 @@ def mutate_live(region, rng):
     if isinstance(v, PixCoord):
         if v.isscalar:
             d = rng.uniform(-3, 3)
+            if rng.random() < 0.35:
+                # a small step (centroid refinement, sub-pixel scan): the new position is the position, however close to the old
+                d = rng.choice([-1, 1]) * 10.0 ** rng.uniform(-7, -0.5)
+                setattr(region, p, PixCoord(v.x + d, v.y - 0.7 * d))
+                return p + ' nudged'
             setattr(region, p, PixCoord(v.x + d * max(1.0, abs(v.x) * 1e-3), v.y - 0.7 * d))
         else:
             import numpy as np
@@ -468,7 +507,7 @@ def mutate_live(region, rng):
             setattr(region, p, PixCoord(cx + (x - cx) * f + rng.uniform(-2, 2), cy + (y - cy) / f))
         return p + ' moved'
     if isinstance(v, u.Quantity):
-        setattr(region, p, v + rng.uniform(10, 80) * u.deg)
+        setattr(region, p, v + (rng.uniform(10, 80) if rng.random() < 0.7 else 10.0 ** rng.uniform(-6, 0)) * u.deg)
         return p + ' turned'
     # sizes: keep annuli ordered
     pairs = {'inner_radius': 'outer_radius', 'inner_width': 'outer_width', 'inner_height': 'outer_height'}
@@ -478,5 +517,5 @@ def mutate_live(region, rng):
     elif p in rev:
         setattr(region, p, getattr(region, rev[p]) * rng.uniform(1.2, 3.0))
     else:
-        setattr(region, p, v * rng.choice([0.4, 0.7, 1.6, 2.5]))
+        setattr(region, p, v * rng.choice([0.4, 0.7, 1.6, 2.5, 1 + 10.0 ** rng.uniform(-7, -1), 1 - 10.0 ** rng.uniform(-7, -1)]))
     return p + ' resized'
